@@ -116,20 +116,34 @@ def extra_cases(chk) -> None:
   """Values outside the abstract grammar that the statement names: every member of the opaque pool on its own, at the root
   and inside a typed object, through all four ways (judged here by the same flags; no collision class applies)."""
   v_leaf = {'t': 'leaf', 'a': 20, 'ks': [], 'xs': []}
-  v_in_obj = {'t': 'obj', 'a': 1, 'ks': [51], 'xs': [v_leaf]}
-  v_in_list = {'t': 'list', 'a': 0, 'ks': [], 'xs': [v_leaf, v_leaf]}
+  int_leaf = {'t': 'leaf', 'a': 3, 'ks': [], 'xs': []}
+  positions = {
+      'root': v_leaf,
+      'object_field': {'t': 'obj', 'a': 1, 'ks': [51], 'xs': [v_leaf]},
+      'list': {'t': 'list', 'a': 0, 'ks': [], 'xs': [v_leaf, v_leaf]},
+      'tuple': {'t': 'tuple', 'a': 0, 'ks': [], 'xs': [int_leaf, v_leaf]},
+      'dict_value': {'t': 'dict', 'a': 0, 'ks': [31, 41], 'xs': [v_leaf, int_leaf]},
+      'tuple_in_list': {'t': 'list', 'a': 0, 'ks': [], 'xs': [{'t': 'tuple', 'a': 0, 'ks': [], 'xs': [v_leaf]}]},
+  }
   n = 0
+  met = set()
   for vi in range(len(codec.OPAQUE)):
-    for v in (v_leaf, v_in_obj, v_in_list):
+    for pos, v in positions.items():
       for way in codec.WAYS:
         row = codec.observe(v, vi, 0, way)
+        if row is None:
+          continue
         n += 1
+        met.add(type(codec.OPAQUE[vi][0]).__name__)
         good = row['ok'] and row['back'] == v and row['eq'] and row['type'] and row['hash'] and row['tree']
         if not good:
           how = ('raises' if not row['ok'] else 'value' if row['back'] != v else
-                 'eq' if not row['eq'] else 'type' if not row['type'] else 'hash' if not row['hash'] else 'tree')
-          chk.violation({'clause': 'rt_' + way, 'cls': 'opaque:' + type(codec.OPAQUE[vi][0]).__name__, 'how': how},
+                 'eq' if not row['eq'] else 'type' if not row['type'] else row['hashwhy'] if not row['hash'] else 'tree')
+          chk.violation({'clause': 'rt_' + way, 'cls': 'opaque:' + type(codec.OPAQUE[vi][0]).__name__, 'how': how, 'position': pos},
                         {'part': 'codec', 'value': codec.concrete_repr(v, vi, 0), 'err': row['err']})
+  chk.notes['opaque_pool'] = {'members': len(codec.OPAQUE), 'types': sorted(met)}
+  chk.require({'function', 'builtin_function_or_method', 'partial', 'Any', 'Dict', 'Schema', 'Enum', 'Union', 'Callable'} <= met,
+              f'vacuous: opaque pool types {sorted(met)}')
   for name, value, eqf in codec.extra_pool():
     for way, fn in codec.WAYS.items():
       n += 1
@@ -173,6 +187,12 @@ class Taint:
     gdoc = store_reg(prev['gdoc'], fs, p)
     grecs = store_reg(prev['grecs'], fs, p)
     self.cur = None
+    if fs == 'mem' and p in (3, 4) and name in ('Exists', 'Rm', 'Load', 'ReadSeq'):
+      # a path BELOW a file: the spec's tree says whether component 'a' is a file right now
+      node = prev['tree']['mem'].get(((4,),))
+      if node is not None and node['k'] != 'dir':
+        self.cur = 'mem_below_file'
+        return self.cur
     if fs == 'mem':
       if p in SENSITIVE:
         self.cur = 'mem_prefix_charset'
@@ -287,7 +307,7 @@ def check_store(chk, f) -> None:
     for n, beh in enumerate(behs):
       replay_store(chk, beh, [1, 2, 3], random.Random(chk.seed * 7919 + b * 100003 + n), f'{TAG}-{b}-{n}', hits, cfg)
   chk.notes['store_action_hits'] = dict(sorted(hits.items()))
-  for need in ('Save:ok', 'Load:ok', 'Load:not_found', 'Rm:ok', 'Exists:ok', 'OpenSeq:ok', 'Add:ok', 'CloseSeq:ok', 'ReadSeq:ok'):
+  for need in ('Save:ok', 'Save:not_a_directory', 'Save:is_a_directory', 'MkdirAt:ok', 'Load:is_a_directory', 'Load:ok', 'Load:not_found', 'Rm:ok', 'Exists:ok', 'OpenSeq:ok', 'Add:ok', 'CloseSeq:ok', 'ReadSeq:ok'):
     chk.require(hits.get(need, 0) > 0, f'vacuous: store step {need} never replayed successfully')
 
 
